@@ -4,6 +4,7 @@ import OjgVerif.JPath.Lemmas
 Index arithmetic (loops as arithmetic progressions, the truncated division of the inner slice branch,
 negative steps by mirroring), then fragment by fragment: what get.go selects in the last position is
 what the fragment denotes; what it pushes in an inner position, popped, is the containers among them. -/
+set_option linter.unusedSimpArgs false
 namespace OjgVerif.JPath
 open OjgVerif
 
@@ -923,6 +924,640 @@ theorem getS_eq_eval (cfg : Cfg) : ∀ (x : List Frag) (v : JV),
     rw [inner_flatMap cfg f v hokf hlen (fun m => pre m.1 (eval (g :: r) m.2))
       (by intro m hm; simp [pre, eval_leaf (g :: r) m.2 (not_all_descent _ (by simp) ht') hm])]
     simp [eval, pre]
+
+
+theorem map_snd_pre (p : Path) (l : List (Path × JV)) : (pre p l).map (·.2) = l.map (·.2) := by
+  simp [pre, Function.comp_def]
+
+theorem map_snd_flatMap (l : List (Path × JV)) (F : Path × JV → List (Path × JV)) (G : JV → List JV)
+    (h : ∀ m ∈ l, (F m).map (·.2) = G m.2) : (l.flatMap F).map (·.2) = (l.map (·.2)).flatMap G := by
+  induction l with
+  | nil => rfl
+  | cons a t ih =>
+    simp only [List.flatMap_cons, List.map_append, List.map_cons]
+    rw [h a (by simp), ih (fun m hm => h m (List.mem_cons_of_mem _ hm))]
+
+theorem sibEval_true (full shallow : Path × JV → List (Path × JV)) (l : List (Path × JV)) :
+    sibEval (fun _ => true) full shallow l =
+      match l with
+      | [] => []
+      | m :: ms => full m ++ ms.flatMap shallow := by
+  cases l <;> simp [sibEval]
+
+/-- the value-level denotation of the machine is the skeleton over Get's selection functions -/
+theorem denV_eq_evalSel (sib : Bool) (cfg : Cfg) (rep : Rep)
+    (hcut : (cfg.typedMapWild && decide (rep.ok = OKind.rmap)) = false) :
+    ∀ (x : List Frag) (v : JV),
+      denV sib (Get.lastV cfg rep) (Get.pushV cfg rep) x v = (evalSel (Get.sel cfg rep) sib x v).map (·.2)
+  | [], v => by simp [denV, evalSel]
+  | [f], v => by
+    by_cases hf : isDescent f = true
+    · have hfd : f = .descent := by cases f <;> simp_all [isDescent]
+      subst hfd
+      simp [denV, evalSel, Get.sel, Get.last, lastDesc, lastBelowV]
+    · rw [denV_single _ _ _ f v (by simpa using hf)]
+      simp [evalSel, Get.sel, Get.lastV]
+  | f :: g :: r, v => by
+    have ih1 := denV_eq_evalSel sib cfg rep hcut (g :: r)
+    have ih2 := denV_eq_evalSel sib cfg rep hcut r
+    have hP : (Get.pushV cfg rep f v).reverse = ((Get.sel cfg rep).inner f v).map (·.2) := by
+      simp [Get.pushV, Get.sel, List.map_reverse]
+    by_cases hf : isDescent f = true
+    · have hfd : f = .descent := by cases f <;> simp_all [isDescent]
+      subst hfd
+      rw [denV_descent_cons, evalSel]
+      simp only [isDescent, Bool.not_true, Bool.and_false, Bool.false_eq_true, ↓reduceIte]
+      have hin : (Get.sel cfg rep).inner .descent v = nodesInner v := by
+        simp [Get.sel, Get.push, hcut]
+      rw [hin, nodesInnerV]
+      rw [map_snd_flatMap _ _ (denV sib (Get.lastV cfg rep) (Get.pushV cfg rep) (g :: r))]
+      intro m _
+      rw [map_snd_pre, ih1]
+    · have hf' : isDescent f = false := by simpa using hf
+      rw [denV_cons_cons _ _ _ f g r v hf', hP, evalSel]
+      by_cases hg : isDescent g = true
+      · have hgd : g = .descent := by cases g <;> simp_all [isDescent]
+        subst hgd
+        cases sib with
+        | true =>
+          have hcond : (true && isDescent Frag.descent && !isDescent f) = true := by rw [hf']; rfl
+          have hsets : (Get.sel cfg rep).sets = fun _ => true := rfl
+          rw [if_pos hcond, hsets, sibEval_true]
+          simp only [fresh]
+          cases (Get.sel cfg rep).inner f v with
+          | nil => simp [sibList]
+          | cons m ms =>
+            simp only [List.map_cons, sibList, ↓reduceIte, List.map_append, map_snd_pre]
+            rw [← ih1 m.2]
+            congr 1
+            rw [map_snd_flatMap _ _ (denV true (Get.lastV cfg rep) (Get.pushV cfg rep) r)]
+            intro a _
+            rw [map_snd_pre, ih2]
+        | false =>
+          simp only [Bool.false_and, Bool.false_eq_true, ↓reduceIte, fresh, sibList_false]
+          rw [map_snd_flatMap _ _ (denV false (Get.lastV cfg rep) (Get.pushV cfg rep) (.descent :: r))]
+          intro m _
+          rw [map_snd_pre, ih1]
+      · have hg' : isDescent g = false := by simpa using hg
+        simp only [hg', Bool.and_false, Bool.false_and, Bool.false_eq_true, ↓reduceIte]
+        have hfresh : fresh sib (Get.lastV cfg rep) (Get.pushV cfg rep) (g :: r) =
+            fun l => l.flatMap (denV sib (Get.lastV cfg rep) (Get.pushV cfg rep) (g :: r)) := by
+          funext l
+          cases g with
+          | descent => simp [isDescent] at hg'
+          | _ => simp [fresh]
+        rw [hfresh]
+        simp only
+        rw [map_snd_flatMap _ _ (denV sib (Get.lastV cfg rep) (Get.pushV cfg rep) (g :: r))]
+        intro m _
+        rw [map_snd_pre, ih1]
+
+
+/-! ### First / Has against Get -/
+
+theorem head?_flatMap_congr {α β : Type} (l : List α) (F G : α → List β)
+    (h : ∀ a ∈ l, (F a).head? = (G a).head?) : (l.flatMap F).head? = (l.flatMap G).head? := by
+  induction l with
+  | nil => rfl
+  | cons a t ih =>
+    have ha := h a (by simp)
+    have it := ih (fun b hb => h b (List.mem_cons_of_mem _ hb))
+    simp only [List.flatMap_cons]
+    cases hF : F a with
+    | nil =>
+      cases hG : G a with
+      | nil => simpa using it
+      | cons y ys => rw [hF, hG] at ha; simp at ha
+    | cons x xs =>
+      cases hG : G a with
+      | nil => rw [hF, hG] at ha; simp at ha
+      | cons y ys => rw [hF, hG] at ha; simpa using ha
+
+theorem head?_pre (p : Path) (l : List (Path × JV)) :
+    (pre p l).head? = l.head?.map fun q => (p ++ q.1, q.2) := by
+  cases l <;> simp [pre]
+
+theorem head?_take_one {α : Type} (l : List α) : (l.take 1).head? = l.head? := by
+  cases l <;> simp
+
+/-- two evaluators whose inner selections coincide and whose last selections have the same first element
+find the same first element (where the `descentSiblings` branch is not taken) -/
+theorem evalSel_head_congr (S T : Sel) (sib : Bool)
+    (hin : ∀ f v, S.inner f v = T.inner f v)
+    (hlast : ∀ f v, (S.last f v).head? = (T.last f v).head?) :
+    ∀ (x : List Frag) (v : JV), (sib = false ∨ noDescAfter x = true) →
+      (evalSel S sib x v).head? = (evalSel T sib x v).head?
+  | [], v, _ => by simp [evalSel]
+  | [f], v, _ => by simpa [evalSel] using hlast f v
+  | f :: g :: r, v, hs => by
+    have hs' : sib = false ∨ noDescAfter (g :: r) = true := by
+      rcases hs with h | h
+      · exact Or.inl h
+      · exact Or.inr (by simp only [noDescAfter, Bool.and_eq_true] at h; exact h.2)
+    have hsib : (sib && isDescent g && !isDescent f) = false := by
+      rcases hs with h | h
+      · simp [h]
+      · simp only [noDescAfter, Bool.and_eq_true, Bool.not_eq_true'] at h
+        cases sib <;> simp_all
+    rw [evalSel, evalSel]
+    simp only [hsib, Bool.false_eq_true, ↓reduceIte, hin]
+    apply head?_flatMap_congr
+    intro m _
+    rw [head?_pre, head?_pre, evalSel_head_congr S T sib hin hlast (g :: r) m.2 hs']
+
+theorem elemAt_in (xs : List JV) (i : Int) (h0 : 0 ≤ i) (hn : i < (xs.length : Int)) :
+    ∃ c, elemAt xs i = [([Loc.idx i.toNat], c)] := by
+  have hlt : i.toNat < xs.length := by omega
+  refine ⟨xs[i.toNat], ?_⟩
+  simp [elemAt, h0, List.getElem?_eq_getElem hlt]
+
+/-- FirstFound/Has, slice in the last position: `start < end` (resp. `end < start`) and `tv[start]` is the
+first element of Get's loop -/
+theorem first_sliceLast (cfg : Cfg) (s e t : Option Int) (v : JV) :
+    First.sliceLast cfg Rep.simple s e t v = (Get.sliceLast Rep.simple s e t v).take 1 := by
+  cases v with
+  | arr xs =>
+    simp only [First.sliceLast, Get.sliceLast, Get.normFor, Rep.simple, AK.typed, Bool.false_eq_true, ↓reduceIte]
+    rw [norm_eq]
+    by_cases h0 : t.getD 1 = 0
+    · simp [h0]
+    · by_cases hst : (xs.length : Int) ≤ nStart xs.length s
+      · simp [h0, hst]
+      · simp only [h0, hst, ↓reduceIte, Get.lastIdx]
+        have hs0 := nStart_nonneg xs.length s
+        obtain ⟨c, hc⟩ := elemAt_in xs (nStart xs.length s) hs0 (by omega)
+        obtain ⟨m, hm⟩ : ∃ m, xs.length = m + 1 := ⟨xs.length - 1, by omega⟩
+        by_cases hpos : 0 < t.getD 1
+        · simp only [hpos, ↓reduceIte]
+          by_cases hlt : nStart xs.length s < nStop true xs.length e t
+          · simp only [hlt, ↓reduceIte]
+            rw [hm, loopUp, ← hm]
+            simp [hlt, hc]
+          · simp only [hlt, ↓reduceIte]
+            rw [hm, loopUp, ← hm]
+            simp [hlt]
+        · simp only [hpos, ↓reduceIte]
+          by_cases hlt : nStop true xs.length e t < nStart xs.length s
+          · simp only [hlt, ↓reduceIte]
+            rw [hm, loopDown, ← hm]
+            simp [hlt, hc]
+          · simp only [hlt, ↓reduceIte]
+            rw [hm, loopDown, ← hm]
+            simp [hlt]
+  | _ => simp [First.sliceLast, Get.sliceLast]
+
+theorem first_last (cfg : Cfg) (f : Frag) (v : JV) :
+    First.last cfg Rep.simple f v = (Get.last cfg Rep.simple f v).take 1 := by
+  cases f with
+  | child k => simp only [First.last, Get.last]; exact (List.take_of_length_le (mKey_small k v)).symm
+  | nth i => simp only [First.last, Get.last]; exact (List.take_of_length_le (mIdx_small i v)).symm
+  | wild =>
+    cases v <;> simp [First.last, Get.last, First.wildOne, Get.wildKids, Rep.simple]
+  | descent => simp [First.last, Get.last]
+  | union ms => simp [First.last, Get.last]
+  | slice s e t => exact first_sliceLast cfg s e t v
+  | filter p => simp [First.last, Get.last]
+
+theorem simple_untyped (v : JV) : First.typedNode Rep.simple v = false := by
+  cases v <;> simp [First.typedNode, Rep.simple, AK.typed, OKind.typed]
+
+theorem first_inner (cfg : Cfg) (f : Frag) (v : JV) :
+    First.inner cfg Rep.simple f v = (Get.sel cfg Rep.simple).inner f v := by
+  cases f with
+  | wild =>
+    simp only [First.inner, simple_untyped, Bool.and_false, Bool.false_eq_true, ↓reduceIte, Get.sel, Get.push,
+      contOnly, List.filter_reverse, List.reverse_reverse]
+  | slice s e t =>
+    cases v with
+    | arr xs =>
+      simp only [First.inner, First.sliceInner, Get.sel, Get.push, Get.slicePush, Get.normFor, Rep.simple, AK.typed,
+        Bool.false_eq_true, ↓reduceIte]
+      cases Get.norm true xs.length s e t <;> simp [contOnly]
+    | _ => simp [First.inner, First.sliceInner, Get.sel, Get.push, Get.slicePush, contOnly]
+  | _ => simp [First.inner, Get.sel]
+
+theorem has_inner (cfg : Cfg) (f : Frag) (v : JV) :
+    Has.inner cfg Rep.simple f v = First.inner cfg Rep.simple f v := by
+  have h1 : (cfg.hasTypedMap && decide (Rep.simple.ok = OKind.rmap)) = false := by
+    cases cfg.hasTypedMap <;> rfl
+  simp [Has.inner, simple_untyped, h1]
+
+
+theorem head?_append_congr {α : Type} (a b c d : List α) (h1 : a.head? = c.head?) (h2 : b.head? = d.head?) :
+    (a ++ b).head? = (c ++ d).head? := by
+  cases a with
+  | nil =>
+    cases c with
+    | nil => simpa using h2
+    | cons y ys => simp at h1
+  | cons x xs =>
+    cases c with
+    | nil => simp at h1
+    | cons y ys => simpa using h1
+
+theorem head?_sibEval_congr (sets : JV → Bool) (F1 F2 S1 S2 : Path × JV → List (Path × JV))
+    (hF : ∀ m, (F1 m).head? = (F2 m).head?) (hS : ∀ m, (S1 m).head? = (S2 m).head?) (l : List (Path × JV)) :
+    (sibEval sets F1 S1 l).head? = (sibEval sets F2 S2 l).head? := by
+  induction l with
+  | nil => rfl
+  | cons m ms ih =>
+    simp only [sibEval]
+    split
+    · exact head?_append_congr _ _ _ _ (hF m) (head?_flatMap_congr ms S1 S2 (fun a _ => hS a))
+    · exact head?_append_congr _ _ _ _ (hF m) ih
+
+/-- the same without a condition on the path when the two evaluators also agree on which elements set the
+descent flag -/
+theorem evalSel_head_congr' (S T : Sel) (sib : Bool)
+    (hin : ∀ f v, S.inner f v = T.inner f v) (hsets : S.sets = T.sets)
+    (hlast : ∀ f v, (S.last f v).head? = (T.last f v).head?) :
+    ∀ (x : List Frag) (v : JV), (evalSel S sib x v).head? = (evalSel T sib x v).head?
+  | [], v => by simp [evalSel]
+  | [f], v => by simpa [evalSel] using hlast f v
+  | f :: g :: r, v => by
+    rw [evalSel, evalSel]
+    simp only [hin, hsets]
+    split
+    · apply head?_sibEval_congr
+      · intro m; rw [head?_pre, head?_pre, evalSel_head_congr' S T sib hin hsets hlast (g :: r) m.2]
+      · intro m; rw [head?_pre, head?_pre, evalSel_head_congr' S T sib hin hsets hlast r m.2]
+    · apply head?_flatMap_congr
+      intro m _
+      rw [head?_pre, head?_pre, evalSel_head_congr' S T sib hin hsets hlast (g :: r) m.2]
+
+/-! ### Locate and Walk against the denotation (as multisets) -/
+
+theorem perm_flatMap_left {α β : Type} (l : List α) (F G : α → List β) (h : ∀ a ∈ l, (F a).Perm (G a)) :
+    (l.flatMap F).Perm (l.flatMap G) := by
+  induction l with
+  | nil => exact List.Perm.refl _
+  | cons a t ih =>
+    simp only [List.flatMap_cons]
+    exact List.Perm.append (h a (by simp)) (ih (fun b hb => h b (List.mem_cons_of_mem _ hb)))
+
+mutual
+/-- parents before children (locate, Walk) against children before parents (Get): the same nodes -/
+theorem desc_perm : ∀ (v : JV), (desc v).Perm (([], v) :: belowPre v)
+  | .arr xs => by
+    simp only [desc, belowPre]
+    exact List.Perm.trans List.perm_append_comm (List.Perm.cons _ (descArr_perm xs 0))
+  | .obj kvs => by
+    simp only [desc, belowPre]
+    exact List.Perm.trans List.perm_append_comm (List.Perm.cons _ (descObj_perm kvs))
+  | .null => by simp [desc, belowPre]
+  | .bool _ => by simp [desc, belowPre]
+  | .int _ => by simp [desc, belowPre]
+  | .flt _ => by simp [desc, belowPre]
+  | .big _ => by simp [desc, belowPre]
+  | .num _ => by simp [desc, belowPre]
+  | .str _ => by simp [desc, belowPre]
+theorem descArr_perm : ∀ (xs : List JV) (i : Nat), (descArr i xs).Perm (belowPreL i xs)
+  | [], i => by simp [descArr, belowPreL]
+  | x :: r, i => by
+    simp only [descArr, belowPreL]
+    have h1 := (desc_perm x).map (pfx (.idx i))
+    simp only [List.map_cons] at h1
+    exact List.Perm.append h1 (descArr_perm r (i + 1))
+theorem descObj_perm : ∀ (kvs : List (Bytes × JV)), (descObj kvs).Perm (belowPreKV kvs)
+  | [] => by simp [descObj, belowPreKV]
+  | m :: r => by
+    simp only [descObj, belowPreKV]
+    have h1 := (desc_perm m.2).map (pfx (.key m.1))
+    simp only [List.map_cons] at h1
+    exact List.Perm.append h1 (descObj_perm r)
+end
+
+/-- slice.go `startEndStep` with the two slice flags off is the normalisation of get.go -/
+theorem locate_ses_eq (cfg : Cfg) (hn : cfg.locNegEnd = false) (hc : cfg.locStartClamp = false)
+    (n : Nat) (s e t : Option Int) : Locate.ses cfg n s e t = Get.norm true n s e t := by
+  rw [norm_eq]
+  unfold Locate.ses
+  simp only [hn, hc, Bool.not_false, Bool.true_and, Bool.false_eq_true, ↓reduceIte, decide_eq_true_eq]
+  by_cases h0 : t.getD 1 = 0
+  · simp [h0]
+  · have hst : (if s.getD 0 < 0 then if (n : Int) + s.getD 0 < 0 then 0 else (n : Int) + s.getD 0 else s.getD 0) = nStart n s := rfl
+    simp only [h0, ↓reduceIte, hst]
+    by_cases hle : (n : Int) ≤ nStart n s
+    · simp [hle]
+    · simp only [hle, ↓reduceIte]
+      have h1 : (if (if s.getD 0 < 0 then (n : Int) + s.getD 0 else if (n : Int) ≤ s.getD 0 then (n : Int) - 1 else s.getD 0) < 0 then 0
+          else if s.getD 0 < 0 then (n : Int) + s.getD 0 else if (n : Int) ≤ s.getD 0 then (n : Int) - 1 else s.getD 0) = nStart n s := by
+        unfold nStart at hle ⊢
+        split at hle <;> (repeat' split) <;> omega
+      have h2 : (if e.getD maxEnd < 0 then
+            if (n : Int) + e.getD maxEnd < -1 ∧ t.getD 1 < 0 then -1 else (n : Int) + e.getD maxEnd
+          else if (n : Int) < e.getD maxEnd then (n : Int) else e.getD maxEnd) = nStop true n e t := by
+        unfold nStop
+        simp only [Bool.or_true, Bool.true_and, decide_eq_true_eq, Bool.and_eq_true]
+        (repeat' split) <;> omega
+      rw [h1, h2]
+
+
+theorem loopUp_lt (m : Nat) (i stop step : Int) : ∀ j ∈ loopUp m i stop step, j < stop := by
+  induction m generalizing i with
+  | zero => simp [loopUp]
+  | succ m ih =>
+    intro j hj
+    rw [loopUp] at hj
+    split at hj
+    · rcases List.mem_cons.mp hj with rfl | h
+      · assumption
+      · exact ih (i + step) j h
+    · simp at hj
+
+theorem loopDown_le (m : Nat) (i stop step : Int) (hs : step ≤ 0) : ∀ j ∈ loopDown m i stop step, j ≤ i := by
+  induction m generalizing i with
+  | zero => simp [loopDown]
+  | succ m ih =>
+    intro j hj
+    rw [loopDown] at hj
+    split at hj
+    · rcases List.mem_cons.mp hj with rfl | h
+      · exact Int.le_refl _
+      · have := ih (i + step) j h; omega
+    · simp at hj
+
+/-- the indexes get.go visits are indexes of the array (no `tv[i]` can fault) -/
+theorem modelIdx_lt (n : Nat) (s e t : Option Int) : ∀ i ∈ modelIdx true n s e t, i < (n : Int) := by
+  intro i hi
+  rw [modelIdx, norm_eq] at hi
+  by_cases h0 : t.getD 1 = 0
+  · simp [h0] at hi
+  · by_cases hst : (n : Int) ≤ nStart n s
+    · simp [h0, hst] at hi
+    · simp only [h0, hst, ↓reduceIte, Get.lastIdx] at hi
+      by_cases hpos : 0 < t.getD 1
+      · simp only [hpos, ↓reduceIte] at hi
+        have := loopUp_lt _ _ _ _ i hi
+        have := nStop_le true n e t hpos
+        omega
+      · simp only [hpos, ↓reduceIte] at hi
+        have := loopDown_le _ _ _ _ (by omega) i hi
+        omega
+
+theorem locate_sliceIdx_eq (cfg : Cfg) (hn : cfg.locNegEnd = false) (hc : cfg.locStartClamp = false)
+    (n : Nat) (s e t : Option Int) : Locate.sliceIdx cfg n s e t = modelIdx true n s e t := by
+  unfold Locate.sliceIdx modelIdx
+  rw [locate_ses_eq cfg hn hc, norm_eq]
+  by_cases h0 : t.getD 1 = 0
+  · simp [h0]
+  · by_cases hst : (n : Int) ≤ nStart n s
+    · simp [h0, hst]
+    · have := nStart_nonneg n s
+      have hmax : max n 1 = n := by omega
+      simp [h0, hst, hmax]
+
+theorem elemOrPhantom_eq (xs : List JV) (i : Int) (h0 : 0 ≤ i) (hn : i < (xs.length : Int)) :
+    Locate.elemOrPhantom xs i = elemAt xs i := by
+  have hlt : i.toNat < xs.length := by omega
+  simp [Locate.elemOrPhantom, elemAt, h0, List.getElem?_eq_getElem hlt]
+
+theorem mIdx_of_nonneg (xs : List JV) (i : Int) (h0 : 0 ≤ i) (hn : i < (xs.length : Int)) :
+    mIdx i (.arr xs) = elemAt xs i := by
+  have hneg : ¬ (i < 0) := by omega
+  simp [mIdx, elemAt, hneg, h0, hn]
+
+theorem sliceLast_arr (s e t : Option Int) (xs : List JV) :
+    Get.sliceLast Rep.simple s e t (.arr xs) = (modelIdx true xs.length s e t).flatMap (elemAt xs) := by
+  simp only [Get.sliceLast, Get.normFor, Rep.simple, modelIdx]
+  cases Get.norm true xs.length s e t <;> simp
+
+/-- Locate, last position, slice flags off: what the fragment denotes, up to order -/
+theorem locate_last_perm (cfg : Cfg) (hn : cfg.locNegEnd = false) (hc : cfg.locStartClamp = false)
+    (f : Frag) (v : JV) (hlen : ∀ xs, v = .arr xs → (xs.length : Int) ≤ maxEnd) :
+    (Locate.last cfg Rep.simple f v).Perm (sel f v) := by
+  cases f with
+  | descent =>
+    have hcut : (cfg.typedMapWild && decide (Rep.simple.ok = OKind.rmap)) = false := by
+      cases cfg.typedMapWild <;> rfl
+    simp only [Locate.last, hcut, Bool.false_eq_true, ↓reduceIte, sel]
+    exact (desc_perm v).symm
+  | child k => rw [← last_eq_sel cfg (.child k) v rfl hlen]; exact List.Perm.refl _
+  | nth i => rw [← last_eq_sel cfg (.nth i) v rfl hlen]; exact List.Perm.refl _
+  | wild => rw [← last_eq_sel cfg .wild v rfl hlen]; exact List.Perm.refl _
+  | union ms => rw [← last_eq_sel cfg (.union ms) v rfl hlen]; exact List.Perm.refl _
+  | filter p =>
+    rw [← last_eq_sel cfg (.filter p) v rfl hlen]
+    exact List.reverse_perm _
+  | slice s e t =>
+    rw [← last_eq_sel cfg (.slice s e t) v rfl hlen]
+    cases v with
+    | arr xs =>
+      simp only [Locate.last, Get.last, locate_sliceIdx_eq cfg hn hc, sliceLast_arr]
+      rw [flatMap_congr' _ _ (elemAt xs)]
+      intro i hi
+      exact elemOrPhantom_eq xs i (modelIdx_nonneg true _ s e t i hi) (modelIdx_lt _ s e t i hi)
+    | _ => simp [Locate.last, Get.last, Get.sliceLast]
+
+/-- no index fault with the slice flags off -/
+theorem locate_faultHere (cfg : Cfg) (hn : cfg.locNegEnd = false) (hc : cfg.locStartClamp = false)
+    (f : Frag) (v : JV) : Locate.faultHere cfg f v = false := by
+  cases f with
+  | slice s e t =>
+    cases v with
+    | arr xs =>
+      simp only [Locate.faultHere, locate_sliceIdx_eq cfg hn hc, List.any_eq_false, Bool.or_eq_true, decide_eq_true_eq, not_or]
+      intro i hi
+      have := modelIdx_nonneg true _ s e t i hi
+      have := modelIdx_lt _ s e t i hi
+      omega
+    | _ => simp [Locate.faultHere]
+  | _ => simp [Locate.faultHere]
+
+theorem locate_fault (cfg : Cfg) (hn : cfg.locNegEnd = false) (hc : cfg.locStartClamp = false) :
+    ∀ (x : List Frag) (v : JV), Locate.fault cfg Rep.simple x v = false
+  | [], _ => rfl
+  | [f], v => by simp [Locate.fault, Rep.simple, AK.typed]
+  | f :: g :: r, v => by
+    simp only [Locate.fault, locate_faultHere cfg hn hc, Bool.false_or, List.any_eq_false]
+    intro m _
+    simp [locate_fault cfg hn hc (g :: r) m.2]
+
+theorem flatMap_filter_vanish {α β : Type} (l : List α) (P : α → Bool) (G : α → List β)
+    (h : ∀ a, P a = false → G a = []) : (l.filter P).flatMap G = l.flatMap G := by
+  induction l with
+  | nil => rfl
+  | cons a t ih =>
+    by_cases hp : P a = true
+    · simp [List.filter_cons, hp, ih]
+    · have hp' : P a = false := by simpa using hp
+      simp [List.filter_cons, hp', ih, h a hp']
+
+/-- **Locate reports exactly the locations the path denotes** (as a multiset; with the slice flags off) -/
+theorem locate_perm_eval (cfg : Cfg) (hn : cfg.locNegEnd = false) (hc : cfg.locStartClamp = false) :
+    ∀ (x : List Frag) (v : JV), endsInDescent x = false → (jsize v : Int) ≤ maxEnd →
+      (evalSel (Locate.sel cfg Rep.simple) false x v).Perm (eval x v)
+  | [], v, _, _ => by simp [evalSel, eval]
+  | [f], v, _, hz => by
+    have h := locate_last_perm cfg hn hc f v (arr_len_le v _ hz)
+    simpa [evalSel, eval, Locate.sel] using h
+  | f :: g :: r, v, ht, hz => by
+    have hlen := arr_len_le v _ hz
+    have ht' : endsInDescent (g :: r) = false := by simpa [endsInDescent] using ht
+    have hlast := locate_last_perm cfg hn hc f v hlen
+    rw [evalSel]
+    simp only [Bool.false_and, Bool.false_eq_true, ↓reduceIte]
+    let G : Path × JV → List (Path × JV) := fun m => pre m.1 (eval (g :: r) m.2)
+    have hG : ∀ m : Path × JV, isContainer m.2 = false → G m = [] := by
+      intro m hm; simp [G, pre, eval_leaf (g :: r) m.2 (not_all_descent _ (by simp) ht') hm]
+    -- 1. the rest of the path on every handed-on element, by induction
+    have hmemsel : ∀ m ∈ (Locate.sel cfg Rep.simple).inner f v, m ∈ sel f v := by
+      intro m hm
+      have : m ∈ Locate.last cfg Rep.simple f v := by
+        simp only [Locate.sel, Locate.inner] at hm
+        split at hm
+        · exact (List.mem_filter.mp hm).1
+        · exact (List.mem_filter.mp hm).1
+      exact hlast.mem_iff.mp this
+    have h1 : ((Locate.sel cfg Rep.simple).inner f v).flatMap
+          (fun m => pre m.1 (evalSel (Locate.sel cfg Rep.simple) false (g :: r) m.2))
+        |>.Perm (((Locate.sel cfg Rep.simple).inner f v).flatMap G) := by
+      apply perm_flatMap_left
+      intro m hm
+      have hsz := sel_size f v m (hmemsel m hm)
+      exact (locate_perm_eval cfg hn hc (g :: r) m.2 ht' (by omega)).map _
+    -- 2. what is not handed on is a non-container, on which the rest yields nothing
+    have h2 : ((Locate.sel cfg Rep.simple).inner f v).flatMap G = (Locate.last cfg Rep.simple f v).flatMap G := by
+      simp only [Locate.sel, Locate.inner]
+      split
+      · apply flatMap_filter_vanish
+        intro m hm
+        simp only [Bool.or_eq_false_iff] at hm
+        exact hG m hm.1
+      · exact flatMap_filter_vanish _ _ G hG
+    -- 3. the last-position selection is the denotation up to order
+    have h3 : ((Locate.last cfg Rep.simple f v).flatMap G).Perm ((sel f v).flatMap G) :=
+      List.Perm.flatMap_right G hlast
+    have h4 : (sel f v).flatMap G = eval (f :: g :: r) v := by simp [eval, G, pre]
+    rw [← h4]
+    exact h1.trans (h2 ▸ h3)
+
+
+/-- Expr.Walk, a fragment other than a descent (slice flags off): what the fragment denotes -/
+theorem walk_last_eq (cfg : Cfg) (hn : cfg.locNegEnd = false) (hc : cfg.locStartClamp = false)
+    (f : Frag) (v : JV) (hf : isDescent f = false) (hlen : ∀ xs, v = .arr xs → (xs.length : Int) ≤ maxEnd) :
+    Walk.last cfg Rep.simple f v = sel f v := by
+  rw [← last_eq_sel cfg f v hf hlen]
+  cases f with
+  | descent => simp [isDescent] at hf
+  | child k => rfl
+  | nth i => rfl
+  | union ms => rfl
+  | wild => cases v <;> simp [Walk.last, Walk.wildKids, Get.last, Get.wildKids, Rep.simple]
+  | filter p =>
+    cases v <;> simp [Walk.last, Walk.filterKids, Get.last, Get.filterKids, Rep.simple, OKind.typed]
+  | slice s e t =>
+    cases v with
+    | arr xs =>
+      have hra : (cfg.walkTypedArray && decide (Rep.simple.ak = AK.rarray)) = false := by
+        cases cfg.walkTypedArray <;> rfl
+      simp only [Walk.last, Walk.slice, hra, Bool.false_eq_true, ↓reduceIte, Get.last, sliceLast_arr,
+        locate_sliceIdx_eq cfg hn hc]
+      apply flatMap_congr'
+      intro i hi
+      exact mIdx_of_nonneg xs i (modelIdx_nonneg true _ s e t i hi) (modelIdx_lt _ s e t i hi)
+    | _ => simp [Walk.last, Walk.slice, Get.last, Get.sliceLast]
+
+/-- **Expr.Walk reports exactly the locations the path denotes** (as a multiset; slice flags and
+`walkDescentNoSelf` off) -/
+theorem walk_perm_eval (cfg : Cfg) (hn : cfg.locNegEnd = false) (hc : cfg.locStartClamp = false)
+    (hw : cfg.walkDescentNoSelf = false) :
+    ∀ (x : List Frag) (v : JV), endsInDescent x = false → (jsize v : Int) ≤ maxEnd →
+      (evalSel (Walk.sel cfg Rep.simple) false x v).Perm (eval x v)
+  | [], v, _, _ => by simp [evalSel, eval]
+  | [f], v, ht, hz => by
+    have hf : isDescent f = false := by simpa [endsInDescent] using ht
+    simp only [evalSel, eval, Walk.sel]
+    rw [walk_last_eq cfg hn hc f v hf (arr_len_le v _ hz)]
+    simp
+  | f :: g :: r, v, ht, hz => by
+    have hlen := arr_len_le v _ hz
+    have ht' : endsInDescent (g :: r) = false := by simpa [endsInDescent] using ht
+    rw [evalSel]
+    simp only [Bool.false_and, Bool.false_eq_true, ↓reduceIte]
+    let G : Path × JV → List (Path × JV) := fun m => pre m.1 (eval (g :: r) m.2)
+    have hinner : ((Walk.sel cfg Rep.simple).inner f v).Perm (sel f v) := by
+      by_cases hf : isDescent f = true
+      · have hfd : f = .descent := by cases f <;> simp_all [isDescent]
+        subst hfd
+        simp only [Walk.sel, Walk.inner, hw, Bool.false_eq_true, ↓reduceIte, sel]
+        exact (desc_perm v).symm
+      · have hf' : isDescent f = false := by simpa using hf
+        have : (Walk.sel cfg Rep.simple).inner f v = Walk.last cfg Rep.simple f v := by
+          cases f with
+          | descent => simp [isDescent] at hf'
+          | _ => rfl
+        rw [this, walk_last_eq cfg hn hc f v hf' hlen]
+    have h1 : ((Walk.sel cfg Rep.simple).inner f v).flatMap
+          (fun m => pre m.1 (evalSel (Walk.sel cfg Rep.simple) false (g :: r) m.2))
+        |>.Perm (((Walk.sel cfg Rep.simple).inner f v).flatMap G) := by
+      apply perm_flatMap_left
+      intro m hm
+      have hsz := sel_size f v m (hinner.mem_iff.mp hm)
+      exact (walk_perm_eval cfg hn hc hw (g :: r) m.2 ht' (by omega)).map _
+    have h3 : (((Walk.sel cfg Rep.simple).inner f v).flatMap G).Perm ((sel f v).flatMap G) :=
+      List.Perm.flatMap_right G hinner
+    have h4 : (sel f v).flatMap G = eval (f :: g :: r) v := by simp [eval, G, pre]
+    rw [← h4]
+    exact h1.trans h3
+
+/-! ### GetNodes against Get on gen data -/
+
+/-- two evaluators with the same selection functions compute the same (where the `descentSiblings`
+branch is not taken) -/
+theorem evalSel_congr (S T : Sel) (sib : Bool)
+    (hin : ∀ f v, S.inner f v = T.inner f v) (hlast : ∀ f v, S.last f v = T.last f v) :
+    ∀ (x : List Frag) (v : JV), (sib = false ∨ noDescAfter x = true) → evalSel S sib x v = evalSel T sib x v
+  | [], v, _ => by simp [evalSel]
+  | [f], v, _ => by simpa [evalSel] using hlast f v
+  | f :: g :: r, v, hs => by
+    have hs' : sib = false ∨ noDescAfter (g :: r) = true := by
+      rcases hs with h | h
+      · exact Or.inl h
+      · exact Or.inr (by simp only [noDescAfter, Bool.and_eq_true] at h; exact h.2)
+    have hsib : (sib && isDescent g && !isDescent f) = false := by
+      rcases hs with h | h
+      · simp [h]
+      · simp only [noDescAfter, Bool.and_eq_true, Bool.not_eq_true'] at h
+        cases sib <;> simp_all
+    rw [evalSel, evalSel]
+    simp only [hsib, Bool.false_eq_true, ↓reduceIte, hin]
+    apply flatMap_congr'
+    intro m _
+    rw [evalSel_congr S T sib hin hlast (g :: r) m.2 hs']
+
+/-- get.go's `gen.Array` branch clamps `end` to the length only for a positive step; for a negative step
+an end beyond the length is above every start, so the same indexes result -/
+theorem modelIdx_gen (n : Nat) (s e t : Option Int) : modelIdx false n s e t = modelIdx true n s e t := by
+  unfold modelIdx
+  rw [norm_eq, norm_eq]
+  by_cases h0 : t.getD 1 = 0
+  · simp [h0]
+  · by_cases hst : (n : Int) ≤ nStart n s
+    · simp [h0, hst]
+    · simp only [h0, hst, ↓reduceIte, Get.lastIdx]
+      by_cases hpos : 0 < t.getD 1
+      · have : nStop false n e t = nStop true n e t := by
+          unfold nStop; simp [hpos]
+        simp only [hpos, ↓reduceIte, this]
+      · have hneg : t.getD 1 < 0 := by omega
+        simp only [hpos, ↓reduceIte]
+        obtain ⟨m, hm⟩ : ∃ m, n = m + 1 := ⟨n - 1, by have := nStart_nonneg n s; omega⟩
+        by_cases hbig : (n : Int) < (if e.getD maxEnd < 0 then (n : Int) + e.getD maxEnd else e.getD maxEnd)
+        · -- the end is beyond the length: nothing either way
+          have h1 : ¬ (nStop false n e t < nStart n s) := by
+            unfold nStop; simp only [hpos, decide_false, Bool.false_or, Bool.false_and, Bool.false_eq_true,
+              ↓reduceIte, hneg, decide_true, Bool.true_and, decide_eq_true_eq]
+            split <;> omega
+          have h2 : ¬ (nStop true n e t < nStart n s) := by
+            unfold nStop; simp only [Bool.or_true, Bool.true_and, hbig, decide_true, ↓reduceIte, hneg,
+              decide_eq_true_eq]
+            split <;> omega
+          rw [hm, loopDown, loopDown, ← hm]
+          simp [h1, h2]
+        · have : nStop false n e t = nStop true n e t := by
+            unfold nStop; simp [hbig]
+          rw [this]
 
 
 end OjgVerif.JPath
